@@ -681,9 +681,12 @@ def descendants(facts, body):
 
 def var_def_exprs(body, v, expand=True):
     """Defining expressions of a named local (mutable ones included)."""
-    if not (isinstance(v, tuple) and v and v[0] == "var"):
+    if isinstance(v, tuple) and v and v[0] == "tmp" and isinstance(v[1], int):
+        l = v[1]   # an unnamed multi-def temporary (the result slot of an inlined helper)
+    elif not (isinstance(v, tuple) and v and v[0] == "var"):
         return []
-    l = body.name_local.get(v[1])
+    else:
+        l = body.name_local.get(v[1])
     if l is None:
         return []
     return [norm(body.def_expr(bi, si, expand)) for bi, si in body.defs.get(l, [])]
@@ -813,6 +816,11 @@ class Iteration:
                 elif e[0] == "field" and e[1] == self.payload:
                     self.elem_vars[("var", name)] = ("field", ("elem",), e[2])
         self.source = self._source()
+        for _ in range(3):
+            if (is_call(self.source, "into_iter") or is_call(self.source, "IntoIterator::into_iter")) and len(self.source[2]) == 1:
+                self.source = norm(self.source[2][0])
+            elif whole_drain(self.source):
+                self.source = norm(self.source[2][0])   # `v.drain(..)` hands out every element of v in order, like `for x in v`
 
     def _source(self):
         """What is iterated: the expression the iterator was made from (into_iter / `&mut` stripped)."""
@@ -832,6 +840,8 @@ class Iteration:
                 e = norm(body.call_expr(bb["term"], True))
                 if is_call(e, "into_iter") or is_call(e, "IntoIterator::into_iter"):
                     return norm(e[2][0])
+                if whole_drain(e):
+                    return norm(e[2][0])   # `v.drain(..)` hands out every element of v in order, like `for x in v`
                 return e
             st = bb["stmts"][rs]
             rv = st["rv"]
@@ -843,6 +853,19 @@ class Iteration:
                 continue
             return norm(body.rvalue_expr(rv, True))
         return norm(body.expand(norm(body.call_args(self.nt)[0])))
+
+    def origin(self):
+        """The source, expanded, looking through a named (possibly `mut`) local that is defined once: `let mut v = x;
+        for e in v.drain(..)` iterates x."""
+        e = norm(self.body.expand(self.source))
+        for _ in range(3):
+            if e[0] != "var":
+                break
+            ds = var_def_exprs(self.body, e, True)
+            if len(ds) != 1 or ds[0] == e:
+                break
+            e = norm(ds[0])
+        return e
 
     def canon(self, e):
         """e with the element (and variables naming it) replaced by ('elem',)."""
@@ -865,6 +888,8 @@ class Iteration:
             if is_call(src, "Iterator::enumerate") and len(src[2]) == 1:
                 return [(path + ("0",), "index", None)] + comp(src[2][0], path + ("1",))
             if (is_call(src, "into_iter") or is_call(src, "IntoIterator::into_iter")) and len(src[2]) == 1:
+                return comp(src[2][0], path)
+            if whole_drain(src):
                 return comp(src[2][0], path)
             if (is_call(src, "iter") or is_call(src, "iter_mut")) and len(src[2]) == 1:
                 return [(path, "item", norm(src[2][0]))]
@@ -924,6 +949,43 @@ class Iteration:
         for s2 in self.body.succs(bi):
             again |= self.body.reachable(s2, removed_edges=cut)
         return bi not in again
+
+
+def resolve_payloads(body, e, rounds=4):
+    """`(x as Some).0` where x is a local with several definitions of which exactly one builds `Some(y)` (the result
+    slot of an inlined helper: `Some(y)` on one path, `None` / an early error on the others) is y - no other
+    definition can be the value whose payload is read.  Likewise through `?`: `(Try::branch(x) as Continue).0`
+    with the one definition `Ok(y)`."""
+    e = norm(e)
+    for _ in range(rounds):
+        m = {}
+        for sub in subexprs(e):
+            if sub[0] != "field" or sub[2] not in ("0", 0) or sub[1][0] != "downcast":
+                continue
+            x, want = sub[1][1], sub[1][2]
+            if is_call(x, "Try>::branch") or is_call(x, "Try::branch"):
+                if want != "Continue" or len(x[2]) != 1:
+                    continue
+                x, want = norm(x[2][0]), ("Ok", "Some")
+            else:
+                want = (want,)
+            if x[0] not in ("tmp", "var"):
+                continue
+            ds = [norm(d_) for d_ in var_def_exprs(body, x, True)]
+            if len(ds) < 2:
+                continue
+            pays = [d_[3][0] for d_ in ds if d_[0] == "agg" and d_[1] == "adt" and len(d_[3]) == 1 and str(d_[2]).rsplit("::", 1)[-1] in want]
+            if len(pays) == 1:
+                m[sub] = norm(body.expand(pays[0]))
+        if not m:
+            break
+        e = norm(subst(e, m))
+    return e
+
+
+def whole_drain(e):
+    """`Vec::drain(v, ..)` / `VecDeque::drain(v, ..)` over the full range."""
+    return (is_call(e, "Vec::drain") or is_call(e, "VecDeque::drain") or is_call(e, "drain")) and len(e[2]) == 2 and e[2][1][0] == "agg" and str(e[2][1][2]).endswith("RangeFull")
 
 
 def iterates(it, coll, mutable=None):
@@ -1076,6 +1138,18 @@ def sym_paths(body, max_paths=128):
                     a = ev(atom, env)
                     # contradictory with what this path already decided?
                     if any(a == x and pol != v for x, v in lits):
+                        continue
+                    # a test on a value that is in sight on this path: `Some(x) is None` cannot be taken, and
+                    # `Some(x) is Some` says nothing new
+                    if a[0] == "variant" and a[1][0] == "agg" and a[1][1] == "adt" and isinstance(a[1][2], str) and "::" in a[1][2]:
+                        if (a[1][2].rsplit("::", 1)[1] == a[2]) != bool(pol):
+                            continue
+                        run(tgt, env, lits, depth + 1)
+                        continue
+                    if a[0] == "const" and isinstance(a[1], (bool, int)) and a[2] == "bool":
+                        if bool(a[1]) != bool(pol):
+                            continue
+                        run(tgt, env, lits, depth + 1)
                         continue
                     l2 = lits + [(a, pol)]
                 run(tgt, env, l2, depth + 1)
